@@ -117,7 +117,7 @@ def kf_match(case):
 
 def jobs(tier, seed):
     q = tier == "quick"
-    base = dict(R=3 if q else 4, L=3, B=4 if q else 5)
+    base = dict(R=3, L=3, B=4 if q else 5)          # thorough widens bounds, steps and selector kinds; a fourth row is added by dedicated jobs only
     steps = [None, 1, 2, -1, -2] + ([] if q else [3, -3])
     out = []
     rowkinds = [dict(rk="all"), dict(rk="ellipsis"), dict(rk="int"), dict(rk="mask"),
